@@ -7,6 +7,7 @@ import (
 	"go/ast"
 	"go/token"
 	"go/types"
+	"golang.org/x/tools/go/ssa"
 	"regexp"
 	"sort"
 	"strconv"
@@ -264,7 +265,49 @@ var ruleC1 = &Rule{
 				return true
 			})
 			m := reInsertCols.FindStringSubmatch(insertText)
-			if m == nil || acqLit == nil || procLit == nil {
+			_, _ = acqLit, procLit
+			// the two function values of the service, resolved on SSA (a literal, a named function, a method value)
+			var acqFn, procFn *ssa.Function
+			if cfn := c.SSAFunc(rel(fi.Pkg.PkgPath), declName(fi.Decl)); cfn != nil {
+				for _, b := range cfn.Blocks {
+					for _, ins := range b.Instrs {
+						st, ok := ins.(*ssa.Store)
+						if !ok {
+							continue
+						}
+						fa, ok := st.Addr.(*ssa.FieldAddr)
+						if !ok {
+							continue
+						}
+						k := fieldKey(fa.X.Type(), fa.Field)
+						var fv *ssa.Function
+						v := st.Val
+						for {
+							if ct, ok := v.(*ssa.ChangeType); ok {
+								v = ct.X
+								continue
+							}
+							break
+						}
+						switch f := v.(type) {
+						case *ssa.MakeClosure:
+							fv, _ = f.Fn.(*ssa.Function)
+						case *ssa.Function:
+							fv = f
+						}
+						if fv == nil {
+							continue
+						}
+						if strings.HasSuffix(k, ".AcquireColumns") {
+							acqFn = fv
+						}
+						if strings.HasSuffix(k, ".ProcessRequest") {
+							procFn = fv
+						}
+					}
+				}
+			}
+			if m == nil || acqFn == nil || procFn == nil {
 				add("service shape", false, lit.Pos(), "INSERT text, AcquireColumns or ProcessRequest not recognised")
 				continue
 			}
@@ -272,20 +315,40 @@ var ruleC1 = &Rule{
 			for _, p := range strings.Split(m[1], ",") {
 				insCols = append(insCols, strings.Trim(strings.TrimSpace(p), "`"))
 			}
-			// acquirer type: (&T{}).acq()
+			// acquirer type: the struct allocated by the AcquireColumns function (or a helper it calls)
 			var ai *acquirerInfo
-			ast.Inspect(acqLit.Body, func(n ast.Node) bool {
-				if cl, ok := n.(*ast.CompositeLit); ok {
-					if tv, ok := info.Types[cl]; ok {
-						if nt := namedOf(tv.Type); nt != nil && acqs[nt.Obj().Name()] != nil {
-							ai = acqs[nt.Obj().Name()]
+			{
+				seenF := map[*ssa.Function]bool{}
+				var scan func(f *ssa.Function, d int)
+				scan = func(f *ssa.Function, d int) {
+					if f == nil || seenF[f] || d > 2 {
+						return
+					}
+					seenF[f] = true
+					for _, b := range f.Blocks {
+						for _, ins := range b.Instrs {
+							if al, ok := ins.(*ssa.Alloc); ok {
+								if nt := namedOf(al.Type()); nt != nil && acqs[nt.Obj().Name()] != nil && ai == nil {
+									ai = acqs[nt.Obj().Name()]
+								}
+							}
+							if ci, ok := ins.(ssa.CallInstruction); ok {
+								if sc := ci.Common().StaticCallee(); sc != nil && len(sc.Blocks) > 0 && fnPkgRel(sc) == "writer/service/impl" {
+									if sc.Signature.Recv() != nil && ai == nil {
+										if nt := namedOf(sc.Signature.Recv().Type()); nt != nil && acqs[nt.Obj().Name()] != nil {
+											ai = acqs[nt.Obj().Name()]
+										}
+									}
+									scan(sc, d+1)
+								}
+							}
 						}
 					}
 				}
-				return true
-			})
+				scan(acqFn, 0)
+			}
 			if ai == nil {
-				add("acquirer", false, acqLit.Pos(), "acquirer type not recognised")
+				add("acquirer", false, lit.Pos(), "acquirer type not recognised")
 				continue
 			}
 			// (a) sets
@@ -341,85 +404,115 @@ var ruleC1 = &Rule{
 				t := sch[table][col]
 				add(fmt.Sprintf("column %s width %d matches the schema", col, n), t == fmt.Sprintf("FixedString(%d)", n), lit.Pos(), fmt.Sprintf("SetSize(%d) but the schema declares %s", n, t))
 			}
-			// (e) request processor: column ← model field
-			var acqVar types.Object
-			ast.Inspect(procLit.Body, func(n ast.Node) bool {
-				if as, ok := n.(*ast.AssignStmt); ok && as.Tok == token.DEFINE && len(as.Lhs) == 1 {
-					if tv, ok := info.Types[as.Rhs[0]]; ok {
-						if nt := namedOf(tv.Type); nt != nil && nt == ai.named {
-							if id, ok := as.Lhs[0].(*ast.Ident); ok {
-								acqVar = info.Defs[id]
+			// (e) request processor: column ← model field, on SSA over the processor and the module functions it calls
+			fed := map[string]map[string]bool{} // acquirer field → model fields
+			paramBindings = map[*ssa.Parameter][]ssa.Value{}
+			{
+				seenF := map[*ssa.Function]bool{}
+				var scan func(f *ssa.Function, d int)
+				scan = func(f *ssa.Function, d int) {
+					if f == nil || seenF[f] || d > 3 || len(f.Blocks) == 0 {
+						return
+					}
+					seenF[f] = true
+					for _, b := range f.Blocks {
+						for _, ins := range b.Instrs {
+							if mc, ok := ins.(*ssa.MakeClosure); ok {
+								if cf, ok := mc.Fn.(*ssa.Function); ok {
+									scan(cf, d+1)
+								}
 							}
+							ci, ok := ins.(ssa.CallInstruction)
+							if !ok {
+								continue
+							}
+							com := ci.Common()
+							sc := com.StaticCallee()
+							if sc != nil && len(sc.Blocks) > 0 && fnPkgRel(sc) == "writer/service/impl" {
+								// one call site at a time: the helper is analysed with this site's arguments bound to its parameters
+								saved := map[*ssa.Parameter][]ssa.Value{}
+								for i, arg := range com.Args {
+									if i < len(sc.Params) {
+										saved[sc.Params[i]] = paramBindings[sc.Params[i]]
+										paramBindings[sc.Params[i]] = []ssa.Value{arg}
+									}
+								}
+								delete(seenF, sc)
+								scan(sc, d+1)
+								for p, v := range saved {
+									paramBindings[p] = v
+								}
+							}
+							mname := ""
+							var recv ssa.Value
+							var args []ssa.Value
+							if com.IsInvoke() {
+								mname, recv, args = com.Method.Name(), com.Value, com.Args
+							} else if sc != nil && sc.Signature.Recv() != nil && len(com.Args) > 0 {
+								mname, recv, args = sc.Name(), com.Args[0], com.Args[1:]
+							}
+							if !strings.HasPrefix(mname, "Append") || len(args) == 0 {
+								continue
+							}
+							// which acquirer field is the receiver built from?
+							af := ""
+							dependsOnValue(recv, func(v ssa.Value) bool {
+								if u, ok := v.(*ssa.UnOp); ok && u.Op == token.MUL {
+									if fa, ok := u.X.(*ssa.FieldAddr); ok && namedOf(fa.X.Type()) == ai.named {
+										k := fieldKey(fa.X.Type(), fa.Field)
+										af = k[strings.LastIndex(k, ".")+1:]
+										return true
+									}
+								}
+								if fa, ok := v.(*ssa.FieldAddr); ok && namedOf(fa.X.Type()) == ai.named {
+									k := fieldKey(fa.X.Type(), fa.Field)
+									af = k[strings.LastIndex(k, ".")+1:]
+									return true
+								}
+								return false
+							}, map[ssa.Value]bool{}, 0)
+							if af == "" {
+								continue
+							}
+							mf := ""
+							dependsOnValue(args[0], func(v ssa.Value) bool {
+								var fa *ssa.FieldAddr
+								if u, ok := v.(*ssa.UnOp); ok && u.Op == token.MUL {
+									fa, _ = u.X.(*ssa.FieldAddr)
+								}
+								if fa != nil {
+									if nt := namedOf(fa.X.Type()); nt != nil && nt.Obj().Pkg() != nil && nt.Obj().Pkg().Path() == pkgWModel {
+										k := fieldKey(fa.X.Type(), fa.Field)
+										mf = k[strings.LastIndex(k, ".")+1:]
+										return true
+									}
+								}
+								if fl, ok := v.(*ssa.Field); ok {
+									if nt := namedOf(fl.X.Type()); nt != nil && nt.Obj().Pkg() != nil && nt.Obj().Pkg().Path() == pkgWModel {
+										k := fieldKey(fl.X.Type(), fl.Field)
+										mf = k[strings.LastIndex(k, ".")+1:]
+										return true
+									}
+								}
+								return false
+							}, map[ssa.Value]bool{}, 0)
+							if fed[af] == nil {
+								fed[af] = map[string]bool{}
+							}
+							fed[af][orStr(mf, "?")] = true
 						}
 					}
 				}
-				return true
-			})
-			fed := map[string]map[string]bool{} // acquirer field → model fields
-			var visit func(n ast.Node, loopSrc map[types.Object]string)
-			modelFieldOf := func(e ast.Expr, loopSrc map[types.Object]string) string {
-				res := ""
-				ast.Inspect(e, func(n ast.Node) bool {
-					switch x := n.(type) {
-					case *ast.SelectorExpr:
-						if sel, ok := info.Selections[x]; ok && sel.Kind() == types.FieldVal {
-							if nt := namedOf(sel.Recv()); nt != nil && nt.Obj().Pkg() != nil && nt.Obj().Pkg().Path() == pkgWModel {
-								res = x.Sel.Name
-							}
-						}
-					case *ast.Ident:
-						if s, ok := loopSrc[info.Uses[x]]; ok {
-							res = s
-						}
-					}
-					return true
-				})
-				return res
+				scan(procFn, 0)
 			}
-			acqFieldIn := func(e ast.Expr) string {
-				res := ""
-				ast.Inspect(e, func(n ast.Node) bool {
-					if se, ok := n.(*ast.SelectorExpr); ok {
-						if id, ok := ast.Unparen(se.X).(*ast.Ident); ok && acqVar != nil && info.Uses[id] == acqVar {
-							res = se.Sel.Name
-						}
-					}
-					return true
-				})
-				return res
+			paramBindings = nil
+			// the request processor is shared by every channel of the service (round-robin, sync + async): it must keep no
+			// state of its own between calls
+			if w := writesCapturedState(procFn); w != "" {
+				add("request processor keeps no state between calls", false, lit.Pos(), "the ProcessRequest function writes to "+w+", which it captured from the constructor: all insert channels of the service run this one function concurrently under different locks, so two requests overwrite each other's column pointers")
+			} else {
+				add("request processor keeps no state between calls", true, lit.Pos(), "")
 			}
-			visit = func(n ast.Node, loopSrc map[types.Object]string) {
-				ast.Inspect(n, func(m ast.Node) bool {
-					switch x := m.(type) {
-					case *ast.RangeStmt:
-						src := modelFieldOf(x.X, loopSrc)
-						ls := map[types.Object]string{}
-						for k, v := range loopSrc {
-							ls[k] = v
-						}
-						if src != "" {
-							if id, ok := x.Value.(*ast.Ident); ok {
-								ls[info.Defs[id]] = src
-							}
-						}
-						visit(x.Body, ls)
-						return false
-					case *ast.CallExpr:
-						if se, ok := ast.Unparen(x.Fun).(*ast.SelectorExpr); ok && strings.HasPrefix(se.Sel.Name, "Append") {
-							af := acqFieldIn(se.X)
-							if af != "" && len(x.Args) >= 1 {
-								mf := modelFieldOf(x.Args[0], loopSrc)
-								if fed[af] == nil {
-									fed[af] = map[string]bool{}
-								}
-								fed[af][orStr(mf, "?")] = true
-							}
-						}
-					}
-					return true
-				})
-			}
-			visit(procLit.Body, map[types.Object]string{})
 			usedBy := map[string]string{}
 			var afs []string
 			for f := range ai.colOf {
@@ -441,7 +534,7 @@ var ruleC1 = &Rule{
 					}
 					usedBy[srcs[0]] = ai.colOf[f]
 				}
-				add(fmt.Sprintf("column %s is fed from exactly one request field", ai.colOf[f]), okFeed, procLit.Pos(), msg)
+				add(fmt.Sprintf("column %s is fed from exactly one request field", ai.colOf[f]), okFeed, lit.Pos(), msg)
 			}
 		}
 		return obls
@@ -950,3 +1043,66 @@ func keysOf(m map[string]bool) []string {
 }
 
 func init() { register(ruleC1, ruleC2, ruleC3, ruleC4) }
+
+// writesCapturedState: does the closure store through one of its free variables (directly or by calling a method on it that
+// stores into its receiver)?
+func writesCapturedState(fn *ssa.Function) string {
+	if fn == nil || len(fn.FreeVars) == 0 {
+		return ""
+	}
+	rooted := func(v ssa.Value) *ssa.FreeVar {
+		for i := 0; i < 8 && v != nil; i++ {
+			switch x := v.(type) {
+			case *ssa.FreeVar:
+				return x
+			case *ssa.UnOp:
+				v = x.X
+			case *ssa.FieldAddr:
+				v = x.X
+			case *ssa.IndexAddr:
+				v = x.X
+			default:
+				return nil
+			}
+		}
+		return nil
+	}
+	mutates := func(m *ssa.Function) bool {
+		if m == nil || len(m.Params) == 0 {
+			return false
+		}
+		for _, b := range m.Blocks {
+			for _, ins := range b.Instrs {
+				if st, ok := ins.(*ssa.Store); ok {
+					if fa, ok := st.Addr.(*ssa.FieldAddr); ok && fa.X == ssa.Value(m.Params[0]) {
+						return true
+					}
+				}
+			}
+		}
+		return false
+	}
+	for _, b := range fn.Blocks {
+		for _, ins := range b.Instrs {
+			switch x := ins.(type) {
+			case *ssa.Store:
+				if _, isCell := x.Addr.(*ssa.FreeVar); isCell {
+					return "the captured variable " + x.Addr.Name()
+				}
+				if fv := rooted(x.Addr); fv != nil {
+					if _, isField := x.Addr.(*ssa.FieldAddr); isField {
+						return "a field of the captured " + fv.Name()
+					}
+				}
+			case ssa.CallInstruction:
+				sc := x.Common().StaticCallee()
+				if sc != nil && sc.Signature.Recv() != nil && len(x.Common().Args) > 0 {
+					if fv := rooted(x.Common().Args[0]); fv != nil && mutates(sc) {
+						return "the captured " + fv.Name() + " (through " + sc.Name() + ")"
+					}
+				}
+			}
+		}
+	}
+	return ""
+}
